@@ -23,8 +23,15 @@ Proof.
   destruct grp as [g|]; [|reflexivity]. rewrite IH. reflexivity.
 Qed.
 
+(* never let conversion unfold [set_bits v] for a variable v: compare the two scans as constants applied to v *)
+Lemma set_bits_c_std v : set_bits_c std_cfg v = set_bits v.
+Proof. unfold set_bits_c, set_bits. f_equal. Qed.
+
 Lemma flagname_c_std m g v : flagname_c std_cfg m g v = flagname m g v.
-Proof. unfold flagname_c, flagname. rewrite flagname_loop_c_std. reflexivity. Qed.
+Proof.
+  unfold flagname_c, flagname. rewrite flagname_loop_c_std, set_bits_c_std.
+  generalize (set_bits v). intros bits. reflexivity.
+Qed.
 
 Lemma flagexist_c_std m g ls fe we : flagexist_c std_cfg m g ls fe we = flagexist m g ls fe we.
 Proof. reflexivity. Qed.
@@ -113,8 +120,9 @@ Proof.
   - cbn [pow_sum fold_right]. unfold sum_mod. cbn [fold_left]. rewrite Z.add_0_r. symmetry. apply Z.mod_small. exact Hacc.
   - rewrite sum_mod_cons. rewrite IH by (apply Z.mod_pos_bound; exact Hpos).
     cbn [pow_sum fold_right]. fold (pow_sum bs).
-    rewrite Zplus_mod_idemp_l. rewrite (Z.add_comm acc), Zplus_mod_idemp_l.
-    f_equal. lia.
+    rewrite Zplus_mod_idemp_l.
+    replace (acc + 2 ^ b mod two64 + pow_sum bs) with (2 ^ b mod two64 + (acc + pow_sum bs)) by lia.
+    rewrite Zplus_mod_idemp_l. f_equal. lia.
 Qed.
 
 (* any list of defined labels, repeated or not: the value is the SUM of 2^bit with multiplicity, reduced mod 2^64 *)
